@@ -299,7 +299,7 @@ def main():
     verdict = C.Verdict(CID, I.MATCHERS)
     build_err = None
     try:
-        C.ensure_built([I.AREA], VO)
+        C.ensure_built([I.AREA, "cal"], VO + ["base/Cal.vo"])
     except C.BuildError as ex:
         build_err = ex
     if build_err is not None:
@@ -309,6 +309,7 @@ def main():
                  "cmd": "coqc props/C07.v", "log": "%s\n%s" % (build_err.what, build_err.log), "ok": False}
     else:
         props = I.apply_poison(C.compile_props(CID))
+    t_build = time.time() - t0        # regenerate + make + coqc props, including the wait for the build lock
     have_oracle = os.path.exists(os.path.join(C.BIN, "oracle_" + I.AREA))
     tot = {"evals": 0, "draws": 0, "in_domain": 0, "hist": {}, "kinds": {}, "entries": {}, "model_diff": 0,
            "spec_diff": 0, "kind_diff": 0, "pyref_checked": 0, "pyref_diff": 0, "spec_incoherent": 0}
@@ -319,8 +320,15 @@ def main():
       if have_oracle:
           # Cal.isocalendar / ord_of_ymd / ymd_of_ord are shared by model, renderer and weekdate_of: compare them
           # with CPython here as well (quick: sampled chunks + boundaries, thorough: every ordinal)
+          # (oracle_cal was built under this check's own build lock above; cal_corr.run must not queue for the
+          # lock a second time)
           import cal_corr
-          calres = cal_corr.run(full=(tier == "thorough"))
+          _eb = C.ensure_built
+          C.ensure_built = lambda *a, **k: (True, "")
+          try:
+              calres = cal_corr.run(full=(tier == "thorough"))
+          finally:
+              C.ensure_built = _eb
           o = C.Oracle(I.AREA)
           n_reg = regressions(o, verdict)
           iso_checked, iso_bad = datetime_isoformat_sanity(o, 2000 if tier == "quick" else 20000, C.rng("C07/isofmt"))
@@ -417,9 +425,9 @@ def main():
                       "regex [\\.,]([0-9]+) modelled by frac_match/span_digits"],
                      len(verdict.violations))
     print("C07 %s: obligations %d/%d, %d evaluations (%d inside guard, %d distinct), model-diff %d, kind-diff %d, "
-          "concrete %d, %.1fs" % (tier, props["discharged"], props["obligations"], cov["evaluations"],
+          "concrete %d, %.1fs (build+proofs incl. lock wait %.0fs)" % (tier, props["discharged"], props["obligations"], cov["evaluations"],
                                    tot["in_domain"], len(nontrivial), tot["model_diff"], tot["kind_diff"],
-                                   len(concrete), time.time() - t0))
+                                   len(concrete), time.time() - t0, t_build))
     return rc
 
 
